@@ -6,7 +6,10 @@ CONFIG = {
     "sources": ["VProps/C15.lean", "VModel/Handshake.lean", "VModel/HandshakeSpec.lean", "VModel/HandshakeInvite.lean", "VModel/HandshakeInviteSpec.lean", "VModel/FedCheck.lean"],
     "theorems": ["V.C15.sendJoin_ok_implies_guards", "V.C15.sendJoin_signs_unmodified", "V.C15.sendJoin_decision_table", "V.C15.makeJoin_ok_implies_guards", "V.C15.makeJoin_ok_implies_spec", "V.C15.pickAuthoriser_some", "V.C15.rulesLoop_some", "V.C15.restrictedStage_err_class", "V.C15.makeJoin_decision_table", "V.C15.makeLeave_ok_implies_guards", "V.C15.makeLeave_decision_table", "V.C15.invite_ok_implies_guards", "V.C15.invite_signs_unmodified", "V.C15.invite_decision_table", "V.C15.inviteCommonChecks_table", "V.C15.performJoin_ok_implies", "V.C15.inviteV3_ok_implies", "V.C15.inviteV3_decision_table",
                  "V.C15.performInvite_ok_implies_guards", "V.C15.performInvite_decision_table", "V.C15.performInvite_no_panic",
-                 "V.C15.piPrepare_table", "V.C15.sendJoinPseudo_ok_implies_guards", "V.C15.sendJoinPseudo_decision_table"],
+                 "V.C15.piPrepare_table", "V.C15.sendJoinPseudo_ok_implies_guards", "V.C15.sendJoinPseudo_decision_table",
+                 # round 5: the event PerformJoin returns is a join of ours; what PerformJoin stores in pseudo-ID rooms, and when
+                 "V.C15.joinEventUsed_ok", "V.C15.performJoinPseudo_stores_vouched", "V.C15.performJoinPseudo_trace_shape",
+                 "V.C15.performJoinPseudo_ok_implies"],
     "rule": "handshake: each handler is run with mock queriers / verifier / template builder / federation client built from the op line; "
             "parameters start on the accepting path and deviate independently with probability 12% (40% in a quarter of the ops): room version "
             "(known / unknown / not offered by the remote), origin vs user domain, local server in room, event shape (membership incl. missing and "
